@@ -76,6 +76,9 @@ class Task(object):
         elif kind == "ret0":
             self.ret_obj = FalsyObj()
             self.kind = "ret"
+        elif kind == "retx":
+            self.ret_obj = RuntimeError("an exception object that the task returns (it does not raise it)")
+            self.kind = "ret"
         self.args_seen = None
         self.enq_call = self.enq_ret = None
         self.enter_step = self.exit_step = None
@@ -509,6 +512,7 @@ CURATED = {
     "P30-stop-while-busy-restart-chain": ([("start",), ("enq", "gated"), ("spawn",), ("stop",), ("joinsub",), ("start",), ("chain", 0, 2), ("chain", 1, 2),
                                            ("result", "c1", BIG)], [("open", "c0")]),
     "P28-falsy-outcomes": ([("start",), ("enq", "raise0"), ("enq", "ret0"), ("result", "c0", BIG), ("result", "c1", BIG)], None),
+    "P33-returned-exception-object": ([("start",), ("enq", "retx"), ("enq", "raise"), ("result", "c0", BIG), ("result", "c1", BIG)], None),
     "P25-task-then-chain": ([("start",), ("enq", "ret"), ("chain", 0, 2), ("chain", 1, 2), ("result", "c2", BIG)], None),
     "P26-two-tasks-then-chain": ([("start",), ("enq", "ret"), ("enq", "raise"), ("chain", 0, 2), ("chain", 1, 2), ("result", "c3", BIG)], None),
     "P27-chain-then-task-restart": ([("start",), ("enq", "ret"), ("stop",), ("start",), ("enq", "ret"), ("chain", 0, 2), ("chain", 1, 2), ("result", "c3", BIG)], None),
@@ -532,7 +536,7 @@ CURATED.update({
     "S6-chain4": ([("start",), ("chain", 0, 4), ("chain", 1, 4), ("chain", 2, 4), ("chain", 3, 4), ("result", "c0", BIG)], None),
     "S7-idle-cycles": ([("start",)] + [x for i in range(4) for x in (("enq", "ret"), ("result", "c%d" % i, BIG), ("sleep", 61))] + [("enq", "ret"), ("result", "c4", BIG)], None),
     "S8-backlog-behind-gate": ([("start",), ("enq", "gated")] + _many(8) + [("open", "c0"), ("join", None), ("stop",)], None),
-    "S10-callable-kinds": ([("start",), ("enq", "raise.p"), ("enq", "ret.p"), ("enq", "raise.i"), ("enq", "ret.i"), ("result", "c0", BIG), ("result", "c1", BIG),
+    "S10-callable-kinds": ([("start",), ("enq", "raise.p"), ("enq", "ret.p"), ("enq", "raise.i"), ("enq", "retx"), ("result", "c0", BIG), ("result", "c1", BIG),
                             ("result", "c2", BIG), ("result", "c3", BIG), ("join", None), ("stop",)], None),
     "S11-failing-partial-then-chain": ([("start",), ("enq", "raise.p"), ("result", "c0", BIG), ("chain", 0, 2), ("chain", 1, 2), ("result", "c1", BIG)], None),
     "S9-restart-with-backlog": ([("start",), ("enq", "gated"), ("enq", "ret"), ("enq", "ret"), ("spawn",), ("stop",), ("joinsub",), ("start",)] + _many(4)
